@@ -423,8 +423,10 @@ package vm
 //@ func (vm *VM) createArrayFromSlice(field reflect.Value) (result object.Object)
 //@   modifies nothing
 //@   ensures @C04 createarray.type: isArray(result) && ptr(result) != 0
+//@   ensures @C04 @C16 createarray.len: len(result.(*object.Array).Elements) == rvLen(field)
 //@   panics maybe
 //@ loop 1 invariant createarray.good: forall j in 0..len(el) :: validObj(el[j])
+//@ loop 1 invariant @C04 createarray.count: len(el) == i && i <= rvLen(field) && l == rvLen(field)
 
 // New optimises every user-defined function: each iteration saves vm.bytecode, works on the body of
 // one function, stores the result under that function's own name in a fresh map and restores
